@@ -19,6 +19,10 @@ var KindMenu = []Tok{
 	{"g_sdt_lit", "<< nil, nil >>"}, {":", ":"}, {";", ";"}, {"|", "|"}, {".", "."}, {"-", "-"}, {"[", "["}, {"]", "]"}, {"{", "{"}, {"}", "}"}, {"(", "("}, {")", ")"},
 }
 
+// JunkMenu: characters that are not part of any front-end token (a file containing one outside literals, comments
+// and actions violates the documented syntax at the token level).
+var JunkMenu = []string{"/", "<", ",", "?", "@", "#", "7", "\\", "=", "+", "*", "~", "$", "%", "^", "&", "<=", "\x01"}
+
 func cloneToks(t []Tok) []Tok { return append([]Tok(nil), t...) }
 
 // Mutants enumerates every single-token edit, every reference renaming and every definition duplication.
@@ -44,6 +48,13 @@ func Mutants(toks []Tok) []Mutant {
 			m := append(cloneToks(toks[:i]), k)
 			m = append(m, toks[i:]...)
 			out = append(out, Mutant{"ins", fmt.Sprintf("insert %s at gap %d", k.Text, i), m, k.Kind == "g_sdt_lit"})
+		}
+	}
+	for i := 0; i <= len(toks); i++ {
+		for _, j := range JunkMenu {
+			m := append(cloneToks(toks[:i]), Tok{"junk", j})
+			m = append(m, toks[i:]...)
+			out = append(out, Mutant{"junk", fmt.Sprintf("insert stray %q at gap %d", j, i), m, false})
 		}
 	}
 	// reference renaming: each use (not a production head) of a production or regular-definition name
